@@ -41,6 +41,9 @@ func C13(tier rt.Tier) int {
 			{name: "1key-very-deep", keys: []int{0}, vals: []string{"a", "b"}, levels: []int{0}, gc: true, depth: 12, c13: true, maxNoDup: 7},
 			// collection passes whose storage write is rejected (and retried) before the rollback
 			{name: "2keys-failing-gc-writes", keys: []int{0, 5}, vals: []string{"a", "b"}, levels: []int{0}, gc: true, gcFault: true, depth: 10, c13: true, maxNoDup: 6},
+			// rollback with nothing committed since the checkpoint (uncommitted changes only, or none) and with
+			// uncommitted changes on top of the commit; the histories go on afterwards (commits, collection passes)
+			{name: "rollback-of-uncommitted-changes", keys: []int{0, 5}, vals: []string{"a"}, levels: []int{0}, gc: true, depth: 9, c13: true, anyRollback: true, maxNoDup: 6},
 			// values SHARED between keys (the same content under two keys is one value record) and two values of
 			// equal weight: the rolled-back batch can move a value from one key to another or exchange two
 			{name: "2keys-shared-equal-weight-values", shared: true, keys: []int{0, 5}, vals: []string{"a", "c"}, levels: []int{0, 1}, gc: true, depth: 8, c13: true, maxNoDup: 6},
